@@ -149,6 +149,25 @@ func (o *OracleC11) AfterTxn(w *ledger.World, bc *ledger.BlockCtx, out *ledger.O
 
 func (o *OracleC11) AfterBlock(w *ledger.World, bc *ledger.BlockCtx) {}
 
+// foreign names what a stake request addressed when it is not a provider registered with the
+// called contract.
+func (o *OracleC11) foreign(v *txnView, kind spenum.Provider, id string) string {
+	for _, d := range v.Pools {
+		if fn, ok := o.M.Strays[d.Key]; ok && d.P == nil {
+			return "stray-stake-pool-copy-left-by-" + fn
+		}
+	}
+	for _, q := range o.M.ByID(id) {
+		if q.Kind == kind && q.Contract != v.T.ToClientID {
+			return "provider-of-another-contract/" + q.Kind.String()
+		}
+	}
+	if q := o.M.ByID(id); len(q) > 0 {
+		return "provider-of-kind-" + q[0].Kind.String() + "-addressed-as-" + kind.String()
+	}
+	return "unregistered-provider"
+}
+
 func (o *OracleC11) lock(w *ledger.World, bc *ledger.BlockCtx, v *txnView) {
 	t := v.T
 	s := t.ClientID
@@ -162,13 +181,10 @@ func (o *OracleC11) lock(w *ledger.World, bc *ledger.BlockCtx, v *txnView) {
 	if msg, ok := expectAccounts(v, want); !ok {
 		o.viol(w, "lock", "lock/"+v.Fn+"/account-deltas", msg)
 	}
-	p := o.M.Find(v.Req.ProviderType, v.Req.ProviderID)
-	if !v.ReqOK || p == nil || p.Contract != t.ToClientID {
+	p := o.M.Target(t.ToClientID, v.Req.ProviderType, v.Req.ProviderID)
+	if !v.ReqOK || p == nil {
 		// the contract accepted a stake for something that is not one of its registered providers
-		what := "unregistered-provider"
-		if q := o.M.ByID(v.Req.ProviderID); len(q) > 0 {
-			what = "provider-of-kind-" + q[0].Kind.String() + "-addressed-as-" + v.Req.ProviderType.String()
-		}
+		what := o.foreign(v, v.Req.ProviderType, v.Req.ProviderID)
 		o.viol(w, "lock", "lock/"+v.Fn+"/accepted-for-"+what,
 			fmt.Sprintf("%s accepted a stake of %d for (%s, %s), which is not a provider registered with this contract", v.Fn, t.Value, v.Req.ProviderType, v.Req.ProviderID))
 		// still say where the tokens' pool ended up
@@ -182,6 +198,14 @@ func (o *OracleC11) lock(w *ledger.World, bc *ledger.BlockCtx, v *txnView) {
 	}
 	d := v.pool(p.PoolKey())
 	if d == nil {
+		for _, x := range v.Pools {
+			if x.NewSP != nil {
+				if dp, ok := x.NewSP.Pools[s]; ok && dp.DelegateID == s {
+					o.viol(w, "lock", "lock/"+v.Fn+"/pool-written-under-another-key", fmt.Sprintf("the stake of %d for %s went into record %q, the provider's stake pool record %q did not change (request provider_type %s)", t.Value, p, x.Key, p.PoolKey(), v.Req.ProviderType))
+					return
+				}
+			}
+		}
 		o.viol(w, "lock", "lock/"+v.Fn+"/pool-not-credited", fmt.Sprintf("stake pool record %q of %s did not change", p.PoolKey(), p))
 		return
 	}
@@ -268,14 +292,14 @@ func (o *OracleC11) elseUntouched(w *ledger.World, v *txnView, p *Prov, op strin
 func (o *OracleC11) unlock(w *ledger.World, bc *ledger.BlockCtx, v *txnView) {
 	t := v.T
 	s := t.ClientID
-	p := o.M.Find(v.Req.ProviderType, v.Req.ProviderID)
-	if !v.ReqOK || p == nil || p.Contract != t.ToClientID {
+	p := o.M.Target(t.ToClientID, v.Req.ProviderType, v.Req.ProviderID)
+	if !v.ReqOK || p == nil {
 		// an unlock that succeeds without a provider of this contract must at least move nothing
 		want := map[string]*big.Int{}
 		addTo(want, s, new(big.Int).Neg(v.Fee))
 		addTo(want, ledger.AddrMiner, v.Fee)
 		if msg, ok := expectAccounts(v, want); !ok || len(v.Recs) > 0 {
-			o.viol(w, "unlock", "unlock/"+v.Fn+"/accepted-for-unregistered-provider",
+			o.viol(w, "unlock", "unlock/"+v.Fn+"/accepted-for-"+o.foreign(v, v.Req.ProviderType, v.Req.ProviderID),
 				fmt.Sprintf("%s succeeded for (%s, %s), not a provider registered with this contract; %s; %d records changed", v.Fn, v.Req.ProviderType, v.Req.ProviderID, msg, len(v.Recs)))
 		}
 		return
@@ -336,13 +360,13 @@ func (o *OracleC11) collect(w *ledger.World, bc *ledger.BlockCtx, v *txnView) {
 	t := v.T
 	s := t.ClientID
 	kind, id := collectTarget(v)
-	p := o.M.Find(kind, id)
-	if p == nil || p.Contract != t.ToClientID {
+	p := o.M.Target(t.ToClientID, kind, id)
+	if p == nil {
 		want := map[string]*big.Int{}
 		addTo(want, s, new(big.Int).Neg(v.Fee))
 		addTo(want, ledger.AddrMiner, v.Fee)
 		if msg, ok := expectAccounts(v, want); !ok || len(v.Recs) > 0 {
-			o.viol(w, "collect", "collect/"+v.Fn+"/accepted-for-unregistered-provider",
+			o.viol(w, "collect", "collect/"+v.Fn+"/accepted-for-"+o.foreign(v, kind, id),
 				fmt.Sprintf("%s succeeded for (%s, %s), not a provider registered with this contract; %s; %d records changed", v.Fn, kind, id, msg, len(v.Recs)))
 		}
 		return
@@ -396,9 +420,16 @@ func (o *OracleC11) collect(w *ledger.World, bc *ledger.BlockCtx, v *txnView) {
 // says unlocking pays back; the only refusals it leaves room for are the ones
 // the contracts document (lock period, stake covering open offers).
 func (o *OracleC11) refused(w *ledger.World, bc *ledger.BlockCtx, v *txnView) {
-	p := o.M.Find(v.Req.ProviderType, v.Req.ProviderID)
-	if !v.ReqOK || p == nil || p.Contract != v.T.ToClientID {
+	p := o.M.Target(v.T.ToClientID, v.Req.ProviderType, v.Req.ProviderID)
+	if !v.ReqOK || p == nil {
 		return
+	}
+	if p.Contract != ledger.AddrZCN && v.Req.ProviderType != p.Kind {
+		return
+	}
+	if _, known := map[spenum.Provider]bool{spenum.Miner: true, spenum.Sharder: true, spenum.Blobber: true, spenum.Validator: true, spenum.Authorizer: true}[v.Req.ProviderType]; !known {
+		w.Tr.Probe("unlock_refused_malformed_provider_type")
+		return // a request without a valid provider_type may be refused
 	}
 	sp, ok := o.M.Pool(bc, p)
 	if !ok {
@@ -437,10 +468,16 @@ func (o *OracleC11) guard(w *ledger.World, v *txnView) {
 		named := false
 		switch v.Class {
 		case fnLock, fnUnlock:
-			named = v.ReqOK && v.Req.ProviderType == d.P.Kind && v.Req.ProviderID == d.P.ID && t.ToClientID == d.P.Contract
+			named = v.ReqOK && o.M.Target(t.ToClientID, v.Req.ProviderType, v.Req.ProviderID) == d.P
+			if !named && v.ReqOK && v.Req.ProviderType == d.P.Kind && v.Req.ProviderID == d.P.ID && v.O.Class == ledger.Success {
+				continue // a stake call sent to another contract reached this pool: reported once, by lock / unlock
+			}
 		case fnCollect:
 			k, id := collectTarget(v)
-			named = k == d.P.Kind && id == d.P.ID && t.ToClientID == d.P.Contract
+			named = o.M.Target(t.ToClientID, k, id) == d.P
+			if !named && k == d.P.Kind && id == d.P.ID && v.O.Class == ledger.Success {
+				continue
+			}
 		}
 		for id, odp := range old.Pools {
 			var ndp *stakepool.DelegatePool
